@@ -1,7 +1,7 @@
 #!/bin/bash
 # v.sh [-t N] funcs... : verify and print a compact summary (non-ok obligations only, short lines)
 T=30; if [ "$1" = "-t" ]; then T=$2; shift 2; fi
-/verif/bin/gowp verify -t $T "$@" 2>&1 | awk '
+${GOWP:-/verif/bin/gowp} verify -t $T "$@" 2>&1 | awk '
 /^== /{fn=$2; sub(/.*\//,"",fn); next}
 /OUT OF REACH/{print "OUT-OF-REACH " fn ": " substr($0,1,200); next}
 /^   ok /{ok[fn]++; next}
